@@ -132,6 +132,54 @@ def exclude_expr(call: ast.Call, pos: Optional[int] = None, prog: Optional[Progr
     return norm(ex)
 
 
+def rewritten_parameters(prog: Program, f: FuncInfo) -> List[Tuple[int, str]]:
+    """The parameters handed to `signature.replace(parameters=...)` are followed back through every list-building stage
+    (flow.py: append loops, comprehensions, list()/filter()): each stage must pass the Parameter object on as it is.  A stage whose
+    element is a call (`param.replace(kind=...)`, `inspect.Parameter(...)`) changes what binds."""
+    from ..flow import Flow
+    cfg = CFG(f, prog)
+    fl = Flow(cfg)
+    out: List[Tuple[int, str]] = []
+    seen: Set[int] = set()
+
+    def go(n, e: ast.expr, depth: int) -> None:
+        if depth > 5:
+            return
+        for sq in fl.seq(n, e):
+            if sq.kind != 'iter' or id(sq) in seen:
+                continue
+            seen.add(id(sq))
+            tgt = dotted(sq.target) if sq.target is not None else None
+            for al in sq.elt:
+                v = al.expr
+                if isinstance(v, ast.Call) and not (dotted(v.func) in ('cast', 'typing.cast')):
+                    out.append((getattr(v, 'lineno', f.node.lineno), norm(v)[:80]))
+            if sq.iter is not None and not ('parameters' in norm(sq.iter) and 'values' in norm(sq.iter)):
+                go(sq.node or n, sq.iter, depth + 1)
+    for n in cfg.stmt_nodes():
+        for c in calls_in(n):
+            if isinstance(c.func, ast.Attribute) and c.func.attr == 'replace':
+                for k in c.keywords:
+                    if k.arg == 'parameters':
+                        go(n, k.value, 0)
+    return out
+
+
+def excluded_names_not_lazy(ck: Check, prog: Program) -> None:
+    """EXCL-AGREE (every parameter is asked the same question): the collection of excluded names that the binder and the
+    documenters test each parameter against is never a one-shot iterator."""
+    from .lazy import lazy_membership_problems
+    mods = ('pjrpc.server.specs', 'pjrpc.server.validators', 'pjrpc.server.dispatcher')
+    scope = [f for f in prog.iter_funcs() if f.module.name.startswith(mods)]
+    funcs = [f for f in scope if f.module.name.startswith(('pjrpc.server.specs.extractors', 'pjrpc.server.validators'))]
+    n_tests, problems = lazy_membership_problems(prog, funcs, scope)
+    ck.ob('EXCL-AGREE', f'{n_tests} membership tests in the validators / schema extractors: none is made repeatedly against a one-shot iterator',
+          not problems, sample={'membership_tests': n_tests})
+    ck.require('EXCL-AGREE', 'membership tests in the validators / schema extractors', n_tests, 2)
+    for f, line, construct, msg in problems:
+        ck.finding('EXCL-AGREE', f.qualname, construct, f.module.rel, line, msg)
+
+
 def run(ck: Check, prog: Program) -> None:
     ck.explain('Sibling agreement between the places that filter a signature: BaseValidator.signature (what the dispatcher binds), '
                'PydanticSchemaExtractor._build_params_model (what the documents list) and the exclude= arguments at the call sites '
@@ -156,6 +204,7 @@ def run(ck: Check, prog: Program) -> None:
         ck.finding('EXCL-AGREE', bpm.qualname, 'exclusion formulas differ', bpm.module.rel, bpm.node.lineno,
                    f'the binder keeps a parameter iff {sorted(fa)} but the documents list it iff {sorted(fb)}: a documented parameter '
                    f'would be refused (or an accepted one undocumented)')
+    excluded_names_not_lazy(ck, prog)
     # exclude expressions at the call sites
     sites: List[Tuple[FuncInfo, ast.Call, str]] = []
     for b in bind_methods(prog):
@@ -363,6 +412,8 @@ def _sig_source(ck: Check, prog: Program) -> None:
 
 
 MUTANTS = [
+    dict(name='exclusion-names-held-as-a-lazy-filter', file='pjrpc/server/specs/extractors/pydantic.py', nth=0,
+         find='        exclude = set(exclude)\n', replace='        exclude = filter(None, exclude)\n', expect='EXCL-AGREE'),
     dict(name='openapi-drops-exclude', file='pjrpc/server/specs/openapi.py',
          find='                    exclude=[method.context] if method.context else [],\n', replace='', expect='EXCL-AGREE'),
     dict(name='defaults-marked-required', file='pjrpc/server/specs/extractors/pydantic.py', nth=0,
